@@ -19,6 +19,9 @@ ASSUMPTIONS = ["list repetition keeps the order of L in every block, so element 
 
 
 def run(ctx) -> None:
+    from . import objmodel
+
+    ctx.guard("C19.cycle", objmodel.abc_registration, "C19.cycle", "a type-dispatched reading of the wells (flat sequence vs array) takes the other branch: 2-D arrays are no longer read column-major")
     ctx.guard("C19", check)
     from .common import memo_rule
 
